@@ -284,7 +284,9 @@ func (w *vWorld) step() {
 		w.copyAccessorWrite()
 		return
 	}
-	switch t.Pick([]int{10, 6, 5, 14, 14, 2, 3}) {
+	switch t.Pick([]int{10, 6, 5, 14, 14, 2, 3, 3}) {
+	case 7:
+		w.siblingAsOperand()
 	case 0:
 		w.newView()
 	case 1: // direct element write through a handle
@@ -371,6 +373,94 @@ func (w *vWorld) parentAsOperand() {
 			w.guard("ConstAt", func() { got = readCell(h.cm.ConstAt(i, j)) })
 			if !got.equal(want.cells[i*h.cols+j]) {
 				w.fail("view-vs-deep-copy", "MdotM-with-the-parent-as-operand|contents-differ", "%s.MdotM(a, root) [%s]: element (%d,%d) = %s, an independent receiver with a copy of the root holds %s", h.name, h.kinds, i, j, got, want.cells[i*h.cols+j])
+			}
+			w.st[h.at(i, j)] = want.cells[i*h.cols+j].v
+		}
+	}
+	w.muts++
+	w.dropSnapshots()
+}
+
+// siblingAsOperand: the receiver of a product is a view, and one operand is
+// ANOTHER view object that denotes the same elements (a full-range slice of the
+// receiver, or its transpose transposed back).  An in-place product needs a
+// temporary; the library has to notice that the two objects share their
+// elements (or reject the call loudly).  Reference: an independent receiver
+// and an independent operand holding the same elements.
+func (w *vWorld) siblingAsOperand() {
+	t := w.c.Tape
+	var cands []*vHandle
+	for _, h := range w.hs {
+		if h.m != nil && !h.readonly && !h.snapshot && h.rows > 0 && h.cols > 0 && h.rows <= 4 && h.cols <= 4 {
+			cands = append(cands, h)
+		}
+	}
+	if len(cands) == 0 {
+		return
+	}
+	h := cands[t.Choose(len(cands))]
+	left := t.Bool(1, 2) // the sibling is the left operand: r = sibling . a
+	k := h.rows
+	if left {
+		k = h.cols
+	}
+	am := randVals(t, w.e, k*k)
+	how := "Slice(0,rows,0,cols)"
+	var sib ad.Matrix
+	w.guard("sibling", func() {
+		if !w.sparse && t.Bool(1, 2) {
+			how = "T().T()"
+			sib = h.m.T().T()
+		} else {
+			sib = h.m.Slice(0, h.rows, 0, h.cols)
+		}
+	})
+	typed := !w.sparse && t.Bool(1, 2)
+	a := mkMatrix(w.e, !typed && t.Bool(1, 2), k, k, am)
+	var cp, sibCopy ad.Matrix
+	w.guard("deep-copy", func() { cp, sibCopy = w.deepCopy(h), w.deepCopy(h) })
+	name := "MdotM"
+	if typed {
+		name = "MDOTM"
+	}
+	w.c.Logf("%s.%s with %s.%s as the %v operand, a = %dx%d %v [%s]", h.name, name, h.name, how, map[bool]string{true: "left", false: "right"}[left], k, k, am, h.kinds)
+	product := func(r, s ad.Matrix) {
+		x, y := ad.Matrix(a), s
+		if left {
+			x, y = s, a
+		}
+		if typed && typedCall(r, "MDOTM", x, y) {
+			return
+		}
+		r.MdotM(x, y)
+	}
+	// the reference first: if the independent product fails (an element type
+	// or derivative-count matter, not a view matter) the view is left alone
+	if pv, _ := core.Try(func() { product(cp, sibCopy) }); pv != nil {
+		w.c.Count("independent-product-panicked:" + name)
+		return
+	}
+	if pv, _ := core.Try(func() { product(h.m, sib) }); pv != nil {
+		// rejected loudly; whatever the receiver holds now is what it holds
+		w.c.Count("aliasing-rejected-by-the-library")
+		for i := 0; i < h.rows; i++ {
+			for j := 0; j < h.cols; j++ {
+				w.guard("ConstAt", func() { w.st[h.at(i, j)] = h.cm.ConstAt(i, j).GetFloat64() })
+			}
+		}
+		w.muts++
+		w.dropSnapshots()
+		return
+	}
+	w.viewOps++
+	w.c.Count("view-op:" + name + "-with-a-sibling-view-as-operand")
+	want := obsMatrix("", cp)
+	for i := 0; i < h.rows; i++ {
+		for j := 0; j < h.cols; j++ {
+			var got cellObs
+			w.guard("ConstAt", func() { got = readCell(h.cm.ConstAt(i, j)) })
+			if !got.equal(want.cells[i*h.cols+j]) {
+				w.fail("view-vs-deep-copy", name+"-with-a-sibling-view-as-operand|contents-differ", "%s.%s with %s of itself as operand [%s]: element (%d,%d) = %s, an independent receiver with an independent operand holds %s", h.name, name, how, h.kinds, i, j, got, want.cells[i*h.cols+j])
 			}
 			w.st[h.at(i, j)] = want.cells[i*h.cols+j].v
 		}
